@@ -17,7 +17,7 @@ import subprocess
 import sys
 
 from hypothesis import strategies as st
-from hypothesis.stateful import RuleBasedStateMachine, initialize, precondition, rule
+from hypothesis.stateful import RuleBasedStateMachine, initialize, rule
 
 from vp import harness
 from vp.forkserver import model_digest
@@ -344,18 +344,12 @@ def machine(tier, report, gate):
         @rule(b=st.integers(0, 2))
         def permutate(self, b):
             self.do(["permutate", b])
-
-        @precondition(lambda self: self.h is not None)
         @rule(b=st.integers(0, 2))
         def formulate(self, b):
             self.do(["formulate", b])
-
-        @precondition(lambda self: self.h is not None)
         @rule(b=st.integers(0, 1))
         def formulate_a(self, b):
             self.do(["formulate", b])
-
-        @precondition(lambda self: self.h is not None)
         @rule(b=st.integers(0, 1), align=st.sampled_from(ALIGNMENTS_3))
         def realign_and_formulate_a(self, b, align):
             self.do(["set", b, "alignment", align])
